@@ -594,3 +594,125 @@ Theorem kgo_order_strict :
   (forall a, eo_less a a = false) /\
   (forall a b c, eo_less a b = true -> eo_less b c = true -> eo_less a c = true).
 Proof. split; [exact eo_less_irrefl | exact eo_less_trans]. Qed.
+
+(* ---- the topic index <-> topic name resolution over the configured list ---------------------- *)
+(* the position Start keeps for a name is the LAST one that holds it *)
+Lemma last_index_is_last topics name : forall i j k,
+  last_index topics name i = Some j -> nth_error topics k = Some name -> i + Z.of_nat k <= j.
+Proof.
+  induction topics as [|t r IH]; intros i j k E Hn; [destruct k; discriminate|].
+  cbn [last_index] in E.
+  destruct (last_index r name (i + 1)) as [j'|] eqn:E'.
+  - inversion E; subst j'. destruct k as [|k].
+    + assert (Hr : In name r) by (eapply last_index_some_in; eassumption).
+      destruct (last_index_spec r name (i + 1) Hr) as (j2 & E2 & Hj2 & _). rewrite E' in E2. inversion E2; subst. lia.
+    + cbn [nth_error] in Hn. specialize (IH (i + 1) j k E' Hn). lia.
+  - destruct k as [|k].
+    + destruct (N_eqb_list t name); [|discriminate]. inversion E; subst. lia.
+    + cbn [nth_error] in Hn. assert (Hr : In name r) by (eapply nth_error_In; eassumption).
+      destruct (last_index_spec r name (i + 1) Hr) as (j2 & E2 & _). congruence.
+Qed.
+
+Lemma topic_of_index_In topics i name : topic_of_index topics i = Ok name -> In name topics.
+Proof.
+  unfold topic_of_index, idx. destruct ((0 <=? i) && (i <? len topics)); [|discriminate].
+  destruct (nth_error topics (Z.to_nat i)) as [x|] eqn:En; [|discriminate].
+  intros H. inversion H; subst. eapply nth_error_In; eassumption.
+Qed.
+
+(* Round trip, for EVERY list (repeats, any order, names that are prefixes of one another): the index Start keeps
+   for a configured name is inside the list, Commit's Topics[index] reads that very name back (no panic), and the
+   index is the last position that holds the name. Conversely a position of the list resolves to a configured name,
+   whose index resolves to the same name again. *)
+Theorem topic_resolution_roundtrip topics :
+  (forall name, In name topics ->
+     topic_of_index topics (index_of_topic topics name) = Ok name /\
+     0 <= index_of_topic topics name < len topics /\
+     (forall j, topic_of_index topics j = Ok name -> j <= index_of_topic topics name)) /\
+  (forall i name, topic_of_index topics i = Ok name ->
+     In name topics /\ topic_of_index topics (index_of_topic topics name) = Ok name) /\
+  topics_resolve_b topics = true.
+Proof.
+  assert (H1 : forall name, In name topics ->
+     topic_of_index topics (index_of_topic topics name) = Ok name /\
+     0 <= index_of_topic topics name < len topics /\
+     (forall j, topic_of_index topics j = Ok name -> j <= index_of_topic topics name)).
+  { intros name Hin. unfold topic_of_index, index_of_topic.
+    destruct (idx_id_by_topic topics name Hin) as (Hidx & Hr). split; [assumption|]. split; [assumption|].
+    intros j Hj. unfold idx in Hj.
+    destruct ((0 <=? j) && (j <? len topics)) eqn:Hb; [|discriminate].
+    destruct (nth_error topics (Z.to_nat j)) as [x|] eqn:En; [|discriminate]. inversion Hj; subst x.
+    destruct (last_index_spec topics name 0 Hin) as (j0 & E0 & _).
+    unfold id_by_topic. rewrite E0.
+    pose proof (last_index_is_last topics name 0 j0 (Z.to_nat j) E0 En). lia. }
+  split; [exact H1|]. split.
+  - intros i name Hi. pose proof (topic_of_index_In _ _ _ Hi) as Hin. split; [assumption|]. now apply H1.
+  - unfold topics_resolve_b. apply forallb_forall. intros t Ht.
+    destruct (H1 t Ht) as (E & _). rewrite E. apply N_eqb_list_refl.
+Qed.
+
+(* A list that is NOT the configured one breaks the round trip: the in-place compaction of [a; a; b] (drop the
+   repeat, keep the slice) leaves [a; b; b] behind; the index Start took from the configured list then names b. *)
+Lemma topic_resolution_needs_the_same_list :
+  let a := [97]%N in let b := [98]%N in
+  topic_of_index [a; b; b] (index_of_topic [a; a; b] a) = Ok b.
+Proof. reflexivity. Qed.
+
+(* ---- a mark exists only for an acknowledged record of that very topic and partition ----------- *)
+Lemma from_records_incl rs rs' m : incl rs rs' -> from_records rs m -> from_records rs' m.
+Proof. intros Hi F k h Hin. destruct (F k h Hin) as (r' & Hr' & H). exists r'. split; [now apply Hi | exact H]. Qed.
+
+Lemma incl_rev_append {A} (l acc : list A) : incl acc (rev_append l acc).
+Proof. intros x Hx. rewrite rev_append_rev. apply in_or_app. now right. Qed.
+
+(* From any heads m that belong to records acknowledged earlier, the Commit calls for the in-range records cs, in
+   that order: no call panics and after the i-th call every head belongs to a record acknowledged by then, under
+   that record's own topic name and partition *)
+Lemma commit_trace_acked topics : forall cs acked m,
+  len topics <= 2 ^ 48 -> Forall (rec_in_range topics) cs -> from_records acked m ->
+  exists tr, commit_trace topics m (map (event_of topics) cs) = (tr, 0) /\
+             length tr = length cs /\
+             acks_pred (snaps_of acked cs) tr = true /\
+             Forall (from_records (rev_append cs acked)) tr.
+Proof.
+  induction cs as [|r cs IH]; intros acked m Hlen HF F.
+  - exists []. cbn. auto.
+  - inversion HF as [|? ? Hr HF']; subst. cbn [map commit_trace].
+    rewrite commit_of_record by assumption.
+    set (m1 := mark_update m (key_of r) (head_of r)).
+    assert (F1 : from_records (r :: acked) m1).
+    { apply from_records_update; [eapply from_records_incl; [|exact F]; intros x Hx; now right | now left]. }
+    destruct (IH (r :: acked) m1 Hlen HF' F1) as (tr & E & Hl & Hp & Hall).
+    rewrite E. exists (m1 :: tr). split; [reflexivity|]. split; [cbn; now rewrite Hl|]. split.
+    + cbn [snaps_of acks_pred]. rewrite Hp, (from_records_forallb _ _ F1). reflexivity.
+    + cbn [rev_append]. constructor; [|exact Hall].
+      eapply from_records_incl; [apply incl_rev_append | exact F1].
+Qed.
+
+(* the executable predicate of the sub-models (acked_marks_pred) holds of every trace of the model: for every
+   topics list and every choice ks of Commit calls among the consumed in-range records rs — any order, repeats,
+   any subset — no Commit panics and after each call every head is (offset + 1, epoch) of a record acknowledged
+   BY THEN, under that record's own topic and partition *)
+Theorem model_trace_marks_only_acked topics rs ks cs :
+  len topics <= 2 ^ 48 -> Forall (rec_in_range topics) rs ->
+  pick rs ks = Some cs ->
+  exists tr, commit_trace topics [] (map (event_of topics) cs) = (tr, 0) /\ length tr = length ks /\
+             acks_pred (snaps_of [] cs) tr = true /\
+             acked_marks_pred topics rs ks tr = true /\
+             forall m k h, In m tr -> In (k, h) m -> exists r, In r cs /\ key_of r = k /\ h = head_of r.
+Proof.
+  intros Hlen HF Hp.
+  destruct (pick_incl _ _ _ Hp) as (Hincl & Hlen').
+  assert (HFc : Forall (rec_in_range topics) cs).
+  { rewrite Forall_forall in *. intros x Hx. apply HF. now apply Hincl. }
+  destruct (commit_trace_acked topics cs [] [] Hlen HFc (fun k h H => match H with end))
+    as (tr & E & Hl & Ha & Hall).
+  exists tr. split; [assumption|]. split; [congruence|]. split; [assumption|]. split.
+  - unfold acked_marks_pred.
+    assert (Hb : forallb (rec_in_range_b topics) rs = true).
+    { apply forallb_forall. intros x Hx. apply rec_in_range_b_spec. rewrite Forall_forall in HF. now apply HF. }
+    now rewrite Hb, Hp.
+  - intros m k h Hm Hin. rewrite Forall_forall in Hall.
+    destruct (Hall m Hm k h Hin) as (r & Hr & H). exists r. split; [|exact H].
+    rewrite rev_append_rev, app_nil_r in Hr. now apply in_rev.
+Qed.
